@@ -222,9 +222,18 @@ package querylog
 //@   ensures n == totalLimitSpec(s.offset, s.limit) && n >= s.limit && n >= s.offset
 
 // Opens the log files and seeks (I/O glue, not verified); frame: does not write *params.
+// What is proved of setQLogReader: it always opens a reader over the rotated file and the current file, in this order -
+// right after a rotation the current file does not exist while the rotated one holds every record.
+//@ ghost var readerOpens int
+//@ func newQLogReader(ctx context.Context, logger *slog.Logger, files []string) (r *qLogReader, err error)
+//@   ghost at entry: readerOpens = old(readerOpens) + 1
+//@   modifies *
 //@ func (l *queryLog) setQLogReader(ctx context.Context, olderThan time.Time) (qr *qLogReader, err error)
-//@   trusted
-//@   modifies fpos
+//@   property C07
+//@   callsites-only
+//@   callsite github.com/AdguardTeam/AdGuardHome/internal/querylog.newQLogReader(c, lg, files) requires both-files-older-first: len(files) == 2 && files[0] == l.logFile + ".1" && files[1] == l.logFile
+//@   ensures must-open-the-reader: readerOpens == old(readerOpens) + 1
+//@   modifies fpos, readerOpens
 
 // The frame clause of searchFiles is assumed by its caller and not checked against the body (C07 runs with frame
 // checking off); the functional postcondition is verified: the files are read up to offset+limit entries.
@@ -235,9 +244,12 @@ package querylog
 //@   modifies entries(cache), lastTS, reqLimit, fpos, fileCount
 //@   ensures reads-offset-plus-limit: reqLimit == old(reqLimit) || reqLimit == totalLimitSpec(old(params.offset), old(params.limit))
 
+// (C08: the client cache lives for one search only - a client found by an earlier search may have become ignored since.)
 //@ func (l *queryLog) search(ctx context.Context, params *searchParams) (entries []*logEntry, oldest time.Time)
-//@   property C07
+//@   property C07, C08
 //@   modifies *
+//@   callsite (*github.com/AdguardTeam/AdGuardHome/internal/querylog.queryLog).searchMemory(lq, c, p, cache) requires cache-of-this-search: fresh(cache)
+//@   callsite (*github.com/AdguardTeam/AdGuardHome/internal/querylog.queryLog).searchFiles(lq, c, p, cache) requires cache-of-this-search: fresh(cache)
 //@   ensures page-size: old(params.limit) >= 0 && old(params.offset) >= 0 ==> len(entries) <= old(params.limit)
 //@   ensures malformed-page-empty: old(params.limit) <= 0 || old(params.offset) < 0 ==> len(entries) == 0
 //@   ensures page-exact: old(params.limit) > 0 && old(params.offset) >= 0 ==> len(entries) == max(min(memCount + fileCount, totalLimitSpec(old(params.offset), old(params.limit))) - old(params.offset), 0)
@@ -310,8 +322,11 @@ package querylog
 //@ func (s *searchParams) match(entry *logEntry) (r0 bool)
 //@   trusted
 //@   modifies nothing
+// (C07: the scan of the memory buffer goes on at least until offset+limit matches are collected - the page is cut out of
+// the merged sequence afterwards, stopping at limit alone would hand the skipped positions to file entries.)
 //@ func (l *queryLog) searchMemory$1(entry *logEntry) (cont bool)
-//@   property C08
+//@   property C08, C07
+//@   ensures scan-goes-on-until-offset-plus-limit: cont || len(entries) >= totalLimitSpec(params.offset, params.limit)
 //@   requires entry != nil && cache != nil && cacheSound(cache) && l.conf != nil
 //@   ensures currently-ignored-name-not-returned: len(entries) > old(len(entries)) ==> !l.conf.Ignored.Has(entry.QHost)
 //@   ensures currently-ignored-client-not-returned: len(entries) > old(len(entries)) ==> entries[len(entries) - 1].client == nil || !entries[len(entries) - 1].client.IgnoreQueryLog
